@@ -19,6 +19,10 @@ BODYSETS = {
     # steep shots with a 20-ft maximum step: within a few steps both projectiles are more than 30 ft above the (shared) station, where the
     # atmosphere is evaluated per step instead of taken from the station values
     'steep||steep': ['steep', 'steep'],
+    # one thread builds its arguments from BARE numbers (read in the preferred units) while the other computes: anything that switches the
+    # preferred units or other process-wide settings for the duration of a computation shows up in the first thread's result
+    'bare||fire': ['bare', 'fire'],
+    'bare||zero': ['bare', 'zero'],
 }
 
 
@@ -45,6 +49,15 @@ def body(kind, k, sw):
         c = pb.Calculator(_config={'max_calc_step_size_feet': (0.5 if k != 1 else 0.4) if kind != 'steep' else 20.0})
         if kind == 'steep':
             return ['ok', traj_bits(c.fire(shot, U.Foot(14.0), U.Foot(7.0)).trajectory)]
+        if kind == 'bare':
+            # default preferences: sight height in, twist in, velocity fps, angles deg, distances yd, temperature F, pressure inHg
+            res = []
+            for rng in (0.3,):
+                w_ = pb.Weapon(2 + k, 12, pb.Unit.MOA(4))
+                a_ = pb.Ammo(sw['dm'], 2750, 59)
+                s_ = pb.Shot(w_, a_, 2, 0, 0, pb.Atmo(100, 29.8, 60, 0.5), [pb.Wind(5, 90, 0.2), pb.Wind(9, 200)])
+                res.append(traj_bits(pb.Calculator().fire(s_, rng, 0.1).trajectory))
+            return ['ok', res]
         if kind == 'fire':
             return ['ok', traj_bits(c.fire(shot, U.Foot(1.0), U.Foot(0.5)).trajectory)]
         if kind == 'firex':
@@ -241,7 +254,7 @@ def explore(ctx):
         orders = list(itertools.permutations(range(n)))
         if quick and n == 3:
             orders = orders[:2]
-        if quick and bs in ('zero||zero', 'firex||fire'):
+        if quick and bs in ('zero||zero', 'firex||fire', 'bare||zero'):
             continue
         for order in orders:
             bodies, sw = make_bodies(bs)
